@@ -8,12 +8,12 @@ PROPS = {
     "C16": dict(
         level="model_checking",
         level_text="bounded model checking by symbolic execution: the repository's Rule.MarshalJSON / Rule.UnmarshalJSON / StatefulDefinition.MarshalJSON are executed from SSA together with the real encoding/json (encoder, decoder, scanner, string escaping and unescaping, struct-tag handling) over the executor's reflect model; a lexer built from the unmarshalled rules is compared with the original (symbol table, token stream and error on every input of up to L symbolic bytes), and single rules are round-tripped with symbolic name / pattern / state bytes and every kind of action",
-        level_note="trusted: the executor's reflect model (every sampled path is replayed natively with the real reflect and the real encoding/json), the reference regex matcher on symbolic input, z3; bounds: 14 catalogue + 40 (quick) / 400 (thorough) generated definitions x inputs <= 3 / 4 bytes; rule fields: texts of <= 2 (quick) / 3 (thorough) bytes, the first 1 / 2 of them any ASCII byte and the rest from 10 class representatives, or one two-byte UTF-8 character",
+        level_note="trusted: the executor's reflect model (every sampled path is replayed natively with the real reflect and the real encoding/json), the reference regex matcher on symbolic input, z3; bounds: 14 catalogue + 40 (quick) / 400 (thorough) generated definitions x inputs <= 3 / 4 bytes; rule fields: texts of <= 2 bytes, the first any ASCII byte and the second from 10 class representatives, or one arbitrary two-byte UTF-8 character",
         runs=[dict(pkg="lexer", files=["lexer/zz_verif_json.go", "lexer/zz_verif_stateful.go", "lexer/zz_verif_lexdefs.go", "lexer/zz_verif_lexgen.go", "lexer/zz_verif_conc.go"], harness="^VH_C16_",
                    flags=["-exec-pkgs", "encoding/json,encoding,encoding/base64"], max_steps=20_000_000,
                    reach={"VH_C16_PushPop": ["round-trip"], "VH_C16_IncludeNested": ["round-trip"], "VH_C16_Generated": ["round-trip"], "VH_C16_RuleFields": ["round-trip"]})],
         bounds=dict(quick="14 catalogue definitions (every action kind, Include first/middle/nested, Return, elided rules with actions, back-references, multi-byte and non-ASCII patterns) + 40 generated definitions, each marshalled both as a definition and as a rule set, x all inputs of <= 3 arbitrary bytes; rule fields: symbolic texts of <= 2 bytes",
-                    thorough="400 generated definitions, inputs <= 4 bytes, rule-field texts <= 3 bytes"),
+                    thorough="400 generated definitions, inputs <= 4 bytes; rule-field texts as quick"),
         outside="definitions outside the catalogue and the generated family; patterns and names longer than the bound; non-ASCII text beyond one two-byte character in the symbolic rule fields (the catalogue has concrete non-ASCII patterns); invalid UTF-8 in names/patterns (encoding/json replaces it by U+FFFD; regexp.Compile rejects such patterns anyway)",
         assumptions=["encoding/json, encoding, encoding/base64 are executed from SSA; reflect is modelled over go/types; sync.Pool/sync.Map/sync.WaitGroup by single-threaded models",
                      "package regexp replaced by the reference matcher on symbolic input"],
@@ -179,9 +179,9 @@ PROPS = {
         level_note="trusted: the stub contract (text/scanner + textScannerTransform turn the rendered tag text into exactly the chosen tokens) — validated on every run because sampled paths and every counterexample are replayed natively with real struct tags lexed by the real scanner; reflect.StructOf is modelled over go/types; bounds below",
         runs=[dict(pkg=".", files=["root/zz_verif_ref.go", "root/zz_verif_ggcore.go", "root/zz_verif_parse.go", "root/zz_verif_grammars.go", "root/zz_verif_build.go"], harness="^VH_C19_", samples=12,
                    reach={"VH_C19_FieldTypes": ["built", "rejected"], "VH_C19_TagBytes": ["built", "rejected"], "VH_C19_Soup1": ["built", "rejected"], "VH_C19_Soup2": ["built", "rejected"]})],
-        bounds=dict(quick="one field: all sequences of 1..3 tokens over a 15-token alphabet (@ ! ~ ? * + ( ) [ ] | : known ident, unknown ident, string) x 6 field types (string, *Struct, []string, bool, map, interface); two fields: all sequences of 1..2 tokens per field over an 8-token alphabet x 3 field types",
-                    thorough="one field: 1..4 tokens over the 22-token alphabet (adds { } = , char, raw string, int) x 11 field types; two fields: 1..3 tokens per field"),
-        outside="tokenisation of arbitrary tag characters by text/scanner (stub); recursive struct types and reflect shapes beyond the list; tags longer than the bound",
+        bounds=dict(quick="one field: all sequences of 1..3 tokens over a 15-token alphabet (@ ! ~ ? * + ( ) [ ] | : known ident, unknown ident, string) x 6 field types (string, *Struct, []string, bool, map, interface); two fields: all sequences of 1..2 tokens per field over an 8-token alphabet x 3 field types; 40 kinds of field type (Parseable by value/pointer/interface, Capture, TextUnmarshaler, self-referential slice and pointer types, arrays, channels, funcs, numeric, nested slices ...) x 12 capture forms under a termination bound; character level: 4 valid prefixes + a tail of <= 2 characters from an 18-character alphabet (quotes, back-quote, backslash, brackets, operators, NUL, newline, non-ASCII) through the real tag lexer and text/scanner",
+                    thorough="one field: 1..4 tokens over an 18-token alphabet (adds { } =) x 8 field types; two fields: 1..3 tokens per field; tag tails of <= 3 characters"),
+        outside="tokenisation of arbitrary tag characters beyond the character-level harness (the token-soup harnesses stub the tag lexer); reflect shapes beyond the list; tags longer than the bound",
         assumptions=["(*tagLexer).Next is replaced by a harness stub returning the chosen tokens (same tokens whenever a field is re-lexed)"],
         explanation="Token-soup exploration of the grammar front end; no panic and node xor error on every path.",
     ),
